@@ -42,11 +42,12 @@ class Group:
     defines: List[str] = field(default_factory=list)
     cbmc_args: List[str] = field(default_factory=list)
     checks: List[str] = field(default_factory=lambda: ["--bounds-check", "--pointer-check",
-                                                       "--signed-overflow-check", "--div-by-zero-check",
-                                                       "--conversion-check"])
+                                                       "--signed-overflow-check", "--div-by-zero-check"])
     solver: str = "sat"                   # sat | cadical | cvc5 | z3
     unwind: int = 12
     unwindset: List[str] = field(default_factory=list)
+    pre_unwind: Dict[str, tuple] = field(default_factory=dict)  # fn -> ([textual loop indexes], k): unwound statically (with unwinding
+                                          # assertions) by goto-instrument BEFORE contract instrumentation (loops nested in a contract loop)
     unwind_fn: Dict[str, int] = field(default_factory=dict)   # per-function loop bound; ids are read from the instrumented binary
     object_bits: Optional[int] = None
     kind: str = "proof"                   # proof | bounded | lemma
@@ -65,6 +66,7 @@ class Group:
                                           # dynamic write-set checks make symbolic execution intractable (pointer locals havoced by a loop contract)
     no_dfcc: bool = False                 # plain harness (spec-level lemma), no contract instrumentation
     replay: Optional[str] = None          # name of native replay recipe
+    no_unwinding_assertions: bool = False # bounded fallback only
     need_canary: bool = True              # harness must end with VP_CANARY() and it must be reachable
 
 
@@ -221,12 +223,15 @@ def gen_loop_contracts(g: Group, gb: str, wd: str, dfcc_cmd):
     return path
 
 
+K_FALLBACK = 3
+
+
 class Infra(Exception):
     pass
 
 
-def run_group(g: Group, prop: str, keep_trace=True) -> Result:
-    wd = os.path.join(WORK, prop, g.name)
+def _run_group_once(g: Group, prop: str, keep_trace=True, sub="") -> Result:
+    wd = os.path.join(WORK, prop, g.name + sub)
     shutil.rmtree(wd, ignore_errors=True)
     os.makedirs(wd, exist_ok=True)
     t0 = time.time()
@@ -249,6 +254,24 @@ def run_group(g: Group, prop: str, keep_trace=True) -> Result:
             if rc != 0:
                 raise Infra("remove-function-body failed: " + (err or out)[-2000:])
             cur = b
+        if g.pre_unwind:
+            rc, out, err, _ = run(["goto-instrument", "--show-loops", cur], 120)
+            per = {}
+            for m in re.finditer(r"^Loop (\S+?)\.(\d+):\n\s+file \S+ line (\d+)", out, re.M):
+                per.setdefault(m.group(1), []).append((int(m.group(3)), int(m.group(2))))
+            uws = []
+            for fn, (idxs, k) in g.pre_unwind.items():
+                lst = sorted(per.get(fn, []))
+                for ix in idxs:
+                    if ix >= len(lst):
+                        raise Infra(f"pre-unwind: {fn} has only {len(lst)} loops (structural edit: proof needs maintenance)")
+                    uws.append(f"{fn}.{lst[ix][1]}:{k}")
+            u = os.path.join(wd, "u.gb")
+            rc, out, err, dt = run(["goto-instrument", "--unwindset", ",".join(uws), "--unwinding-assertions", cur, u], 300, cwd=wd,
+                                   log=os.path.join(wd, "preunwind.log"))
+            if rc != 0:
+                raise Infra("pre-unwind failed: " + (err or out)[-2000:])
+            cur = u
         if not g.no_dfcc:
             b = os.path.join(wd, "b.gb")
             cmd = ["goto-instrument"] + ([] if g.oldstyle else ["--dfcc", g.entry])
@@ -265,7 +288,8 @@ def run_group(g: Group, prop: str, keep_trace=True) -> Result:
             if rc != 0:
                 raise Infra("goto-instrument --dfcc failed: " + (err or out)[-3000:])
             cur = b
-        cmd = ["cbmc", cur] + (["--function", g.entry] if g.oldstyle else []) + ["--json-ui", "--drop-unused-functions", "--unwind", str(g.unwind), "--unwinding-assertions"] + g.checks
+        cmd = ["cbmc", cur] + (["--function", g.entry] if g.oldstyle else []) + ["--json-ui", "--drop-unused-functions", "--unwind", str(g.unwind)] + \
+              ([] if g.no_unwinding_assertions else ["--unwinding-assertions"]) + g.checks
         uws = list(g.unwindset)
         if g.unwind_fn:
             rc3, out3, err3, _ = run(["goto-instrument", "--show-loops", cur], 120)
@@ -339,6 +363,11 @@ def run_group(g: Group, prop: str, keep_trace=True) -> Result:
                     res.samples.append(entry)
             else:
                 entry["status"] = st
+                if st == "UNKNOWN":
+                    # cbmc could neither refute nor prove it (typically: beyond a failed unwinding assertion): undecided, never a violation
+                    entry["description"] = "UNKNOWN (undecided by cbmc): " + desc
+                    res.aux_failed.append(entry)
+                    continue
                 if keep_trace and "trace" in r:
                     entry["trace"] = r["trace"]
                 anon_loop = (desc == "assertion" and entry["function"].endswith("_wrapped_for_contract_checking") and not entry["file"])
@@ -406,4 +435,36 @@ def run_group(g: Group, prop: str, keep_trace=True) -> Result:
         res.status = "infra"
         res.detail = str(e)
     res.seconds = time.time() - t0
+    return res
+
+
+def run_group(g: Group, prop: str, keep_trace=True) -> Result:
+    """Main run; when the loop-contract proof itself is broken (auxiliary obligations fail, or the loop structure no longer
+    matches the contract file) a BOUNDED search without loop contracts (every loop of the functions under loop contract
+    unwound K_FALLBACK times, no unwinding assertions) looks for a failing property obligation from the function's entry.
+    A hit is a violation with a from-entry counterexample; no hit leaves the group undecided (exit 2)."""
+    res = _run_group_once(g, prop, keep_trace)
+    broken = (res.status == "undecided") or (res.status == "infra" and ("loop-count mismatch" in res.detail or "loop contract for" in res.detail))
+    if not broken or not g.loops or g.kind != "proof":
+        return res
+    import copy
+    fb = copy.copy(g)
+    fb.loops = None
+    fb.unwind_fn = dict(g.unwind_fn)
+    for fn in g.loops:
+        fb.unwind_fn[fn] = K_FALLBACK + 1
+    fb.no_unwinding_assertions = True
+    fb.min_obligations = 1
+    fb.timeout = min(g.timeout, 600)
+    r2 = _run_group_once(fb, prop, keep_trace, sub=".bounded")
+    if r2.status == "violation":
+        for e in r2.failed:
+            e["description"] += f" [proof broken: {res.detail[:120]}; counterexample found by bounded search from function entry, loops unwound {K_FALLBACK}x]"
+        res.status = "violation"
+        res.failed = r2.failed
+        res.cmd = r2.cmd
+        res.workdir = r2.workdir
+        res.detail += " | bounded fallback found a property-obligation failure"
+    else:
+        res.detail += f" | bounded fallback (k={K_FALLBACK}) found no property-obligation failure: {r2.status} {r2.detail[:200]}"
     return res
